@@ -1,7 +1,7 @@
 (* C02 -- Snapshot fidelity: a snapshot truthfully describes the paused frame. *)
 From Deep Require Import Base Config ConfigProofs Collector CollectorProofs Frames.
-From DeepGen Require Import PRender PFrames.
-From Deep Require Import TieRender TieFrames.
+From DeepGen Require Import PRender PFrames PChildren.
+From Deep Require Import PureSupport TieRender TieFrames TieNames.
 
 (* the stack frames are the real call stack, in order, one per frame, each carrying that frame's
    file, function, line and class of self *)
@@ -130,3 +130,17 @@ Theorem C02_the_code_short_path_is_the_model :
   forall ia f, gen_parse_short_name ia f = (Config.short_path (snd (ia f)) f, fst (ia f)).
 Proof. exact tie_parse_short_name. Qed.
 Print Assumptions C02_the_code_short_path_is_the_model.
+
+(* ---- tie by translation: correct_names and process_list_breadth_first as they are in /repo/src NOW *)
+(* an attribute that Python stored under its mangled name (_Class__x) is shown as the source names it (__x) *)
+Theorem C02_the_code_private_names_are_the_model :
+  forall ty name, gen_correct_names ty name = correct_name ty name.
+Proof. exact tie_correct_names. Qed.
+Print Assumptions C02_the_code_private_names_are_the_model.
+
+(* the children of a list / tuple / set are its first elements IN ORDER, each named by its index *)
+Theorem C02_the_code_names_elements_by_index :
+  forall (N P : Type) (mk : str -> nat -> P -> N) (K : nat) (p : P) (el : list nat),
+  gen_process_list mk (Z.of_nat K) p el = map (fun ix => mk (print_nat (fst ix)) (snd ix) p) (number 0 (firstn K el)).
+Proof. intros N P. exact (@tie_process_list N P). Qed.
+Print Assumptions C02_the_code_names_elements_by_index.
